@@ -265,7 +265,6 @@ namespace
         bool operator!=(const FInt &o) const { return v != o.v; }
     };
     int FInt::throw_after = 0;
-
     // ---------------------------------------------------------------- igris::ring<T, Alloc>
     // ops: [0 push v] [1 emplace v] [2 pop] [3 write n v] [4 read n] [5 get_last offset count order] [6 fixup idx]
     //      [7 distance a b] [8 resize n] [9 reset] [10 clear] [11 last/tail/head queries] [12 external producer k v: fills k slots, set_last_index]
@@ -302,7 +301,8 @@ namespace
                 else if (k < 91) p.ops.push_back({9});
                 else if (k < 93) p.ops.push_back({10});
                 else if (k < 97) p.ops.push_back({11, (int64_t)r.below(1000)});
-                else p.ops.push_back({12, r.chance(1, 2) ? (int64_t)cap + 1 : (int64_t)r.below(cap + 2), v});
+                else if (k < 99) p.ops.push_back({12, r.chance(1, 2) ? (int64_t)cap + 1 : (int64_t)r.below(cap + 2), v});
+                else p.ops.push_back({13, v});
             }
             return p;
         }
@@ -341,7 +341,7 @@ namespace
                 check("init");
                 for (auto &o : p.ops)
                 {
-                    int kind = (int)mod(arg(o, 0), 13);
+                    int kind = (int)mod(arg(o, 0), 14);
                     int h0 = rg.head_index(), t0 = rg.tail_index();
                     switch (kind)
                     {
@@ -512,6 +512,31 @@ namespace
                             m.pop_front();
                         }
                         break;
+                    case 13:
+                    {
+                        // a copy of the ring is a ring of its own: changing an element of the source does not change the copy, and the
+                        // copy drains to the same sequence. (Only elements without resources: igris::ring constructs over its
+                        // default-constructed slots and destroys popped slots again when it dies, so an element that owns memory is
+                        // double-freed on the unchanged tree too - element lifetimes are outside C03.)
+                        igris::ring<T, simalloc::Alloc<T>> c(rg);
+                        std::deque<T> want = m;
+                        if (!m.empty())
+                        {
+                            T nv = val(arg(o, 1), 9);
+                            rg.tail() = nv;
+                            if (hist.size() >= m.size()) hist[hist.size() - m.size()] = nv; // the same slot seen through the history accessors
+                            m.front() = nv;
+                        }
+                        if (c.avail() != want.size()) violate("C03/copy", "a copy of a ring holding %zu elements reports %u", want.size(), c.avail());
+                        for (size_t q = 0; q < want.size(); q++)
+                        {
+                            if (c.tail() != want[q]) violate("C03/copy", "element %zu read from a copy of the ring differs from what was written (it follows a later change of the source)", q);
+                            c.pop();
+                        }
+                        probe("ring_copied");
+                        tr.ev("copy %zu", want.size());
+                        break;
+                    }
                     case 12:
                     {
                         // external (DMA style) producer: fills up to k free slots from the head on, wrapping at the end of the
